@@ -16,7 +16,15 @@ gvars == <<vars, hist, calls, ncalls>>
 Alpha == [statefunc |-> statefunc', init |-> init', task |-> next_task',
           cleanup_none |-> (cleanup' = NoneS), reason |-> cleanup_reason', attrs |-> attrs']
 
-GInit == Init /\ hist = <<>> /\ calls = <<>> /\ ncalls = 0
+AlphaNow == [statefunc |-> statefunc, init |-> init, task |-> next_task,
+             cleanup_none |-> (cleanup = NoneS), reason |-> cleanup_reason, attrs |-> attrs]
+(* construction: plain, or (one representative each) with an attribute and a first state / with an attribute only; *)
+(* a non-plain construction counts as the first operation of the behaviour                                       *)
+GInit == /\ Init /\ calls = <<>> /\ ncalls = 0
+         /\ \/ attrs = NoKw /\ next_task = NoTask /\ hist = <<>>
+            \/ /\ attrs # NoKw
+               /\ (attrs["x"] # Absent) <=> (next_task # NoTask)
+               /\ hist = <<[act |-> "new", s |-> next_task.s, kw |-> attrs, c |-> NoneS, exp |-> AlphaNow]>>
 
 (* the n-th start request carries x = n (all requests distinguishable) and y only when n is odd *)
 NStarts == Len(SelectSeq(hist, LAMBDA h : h.act = "start"))
